@@ -41,9 +41,13 @@ ASSUMPTIONS = [
     "group messages and validator entries of API answers carry well-formed keys (no null message, no unknown public key)",
     "a quorum group without any partial signature makes tbls.ThresholdAggregate fail and with it the whole fetch (command fails, "
     "node keeps its state): modelled as coded",
-    "deviation D1 is switched on when the directed probe confirms it",
+    "deviations D1 and D2 are switched on when their directed probes confirm them",
 ]
 FINDINGS = {
+    "D2": ("GROW-FEERECIPIENT-null-message-panic",
+           "cmd/feerecipientsign.go: `feerecipient sign` dereferences the message of every registration group of the API's status "
+           "answer (findRegistrationGroups, filterPubkeysByStatus); an answer with \"message\": null crashes the command with a nil "
+           "pointer panic instead of failing with an error"),
     "D1": ("GROW-FEERECIPIENT-duplicate-entry-last-wins",
            "app/builderregistration.go: where ONE source lists a validator twice the LAST entry is taken whatever its timestamp "
            "(mergeOverrides returns a single non-empty source unmerged and applyBuilderRegistrationOverrides / the base loop of "
@@ -54,32 +58,30 @@ FINDINGS = {
 
 SHAPES = [(3, 2), (3, 2), (4, 3), (4, 3), (5, 4), (3, 3), (4, 2)]
 TAMPERS = ["dropsig", "flipq", "unq", "emptyq", "shift", "rev", "all", "alldesc", "older", "empty", "swapsig", "dupval", "othermsg", "twoq",
-           "nopart", "nolock"]
+           "nopart", "nolock", "nullmsg"]
 
 
-def trace_cfg(n, t, nv, dup):
-    name = "FeeRecipientTrace_%d_%d_%d_%s.cfg" % (n, t, nv, "ascoded" if dup else "strict")
-    txt = ("SPECIFICATION TraceSpec\nCONSTANTS\n N = %d\n T = %d\n NV = %d\n Cmds = {%s}\n DupLastWins = %s\n Defect = \"none\"\n"
+def trace_cfg(n, t, nv, dup, panic):
+    name = "FeeRecipientTrace_%d_%d_%d_%s%s.cfg" % (n, t, nv, "D1" if dup else "", "D2" if panic else "")
+    txt = ("SPECIFICATION TraceSpec\nCONSTANTS\n N = %d\n T = %d\n NV = %d\n Cmds = {%s}\n DupLastWins = %s\n AllowPanic = %s\n Defect = \"none\"\n"
            "CONSTRAINT Mark\nACTION_CONSTRAINT ActOK\nPOSTCONDITION Report\nCHECK_DEADLOCK FALSE\n"
-           % (n, t, nv, ", ".join(str(i) for i in range(1, 61)), "TRUE" if dup else "FALSE"))
+           % (n, t, nv, ", ".join(str(i) for i in range(1, 61)), "TRUE" if dup else "FALSE", "TRUE" if panic else "FALSE"))
     return (name, txt)
 
 
-_dev = {"D1": True}      # set by the probe
+_dev = {"D1": True, "D2": True}      # set by the probes
 
 
-def cfg_strict(tr):
-    r = tr[0]
-    return trace_cfg(r["n"], r["t"], r["nv"], False)
-
-
-def cfg_ascoded(tr):
-    r = tr[0]
-    return trace_cfg(r["n"], r["t"], r["nv"], True)
+def cfg_with(**dev):
+    def f(tr):
+        r = tr[0]
+        d = dict(_dev, **dev)
+        return trace_cfg(r["n"], r["t"], r["nv"], d["D1"], d["D2"])
+    return f
 
 
 def cfg_of(tr):
-    return cfg_ascoded(tr) if _dev["D1"] else cfg_strict(tr)
+    return cfg_with()(tr)
 
 
 # ----------------------------------------------------------------------------------------------------------------------
@@ -406,33 +408,46 @@ def probe_D1():
     return s
 
 
+def probe_D2():
+    s = [{"ev": "Cfg", "mode": "B", "n": 3, "t": 2, "nv": 1}]
+    s.append({"ev": "Start", "c": 1, "op": 1, "kind": "sign", "vs": [1], "fr": 1, "gl": 0, "ts": 4})
+    s += [{"ev": "Step", "c": 1}] * 2
+    # the status answer to the second operator is malformed: its groups carry "message": null
+    s.append({"ev": "Start", "c": 2, "op": 2, "kind": "sign", "vs": [1], "fr": 1, "gl": 0, "ts": 4})
+    s += [{"ev": "Step", "c": 2, "tamper": "nullmsg"}, {"ev": "Step", "c": 2}]
+    return s
+
+
 def confirm_deviations(o):
-    """The directed probe, executed twice: rejected by the contract cfg and accepted by the as-coded cfg -> D1 is in the tree
-    (KNOWN-FINDING, the bulk is validated as coded); accepted by the contract -> the deviation is gone; rejected by both -> the
-    regular violation path."""
-    pr = probe_D1()
-    traces, sids, wall = vlib.run_schedules(o.pid, PKG, "TestExec", [pr, pr], tag="probe")
-    vs = vlib.validate_traces(o.pid, FAMILY, TRACE, cfg_strict, traces)
-    vd = vlib.validate_traces(o.pid, FAMILY, TRACE, cfg_ascoded, traces)
-    o.schedules += 2
-    o.traces += len(traces)
-    o.trace_events += sum(len(t) for t in traces)
-    o.trace_states += vs.states + vd.states
-    if len(vs.rejected) not in (0, len(traces)):
-        raise vlib.Infra("probe D1: the two executions of one schedule got different verdicts")
-    if vs.rejected and not vd.rejected:
-        _dev["D1"] = True
-        o.known.append((FINDINGS["D1"][0], FINDINGS["D1"][1]))
-    elif vs.rejected:
-        _dev["D1"] = False
-        vlib.conformance(o, FAMILY, TRACE, cfg_strict, PKG, [pr], tag="probe_D1")
-        if not o.violations:
-            raise vlib.Infra("probe D1 rejected by the contract and by the as-coded cfg, but not reproduced")
-    else:
-        _dev["D1"] = False
-        o.notes.append("deviation D1 (%s) not observed on this tree: the bulk is validated against the contract" % FINDINGS["D1"][0])
-    o.extra["feerecipient_deviations_confirmed"] = [FINDINGS["D1"][0]] if _dev["D1"] else []
-    log("[%s] FeeRecipient probe: %d traces in %.1fs; D1 %s" % (o.pid, len(traces), wall, "confirmed" if _dev["D1"] else "not observed"))
+    """The directed probes, each executed twice: rejected by the contract cfg and accepted by the as-coded cfg -> the deviation is
+    in the tree (KNOWN-FINDING, the bulk is validated as coded); accepted by the contract -> the deviation is gone; rejected by
+    both -> the regular violation path."""
+    confirmed = []
+    for dev, pr in (("D1", probe_D1()), ("D2", probe_D2())):
+        strict, coded = cfg_with(**{dev: False}), cfg_with(**{dev: True})
+        traces, sids, wall = vlib.run_schedules(o.pid, PKG, "TestExec", [pr, pr], tag="probe" + dev)
+        vs = vlib.validate_traces(o.pid, FAMILY, TRACE, strict, traces)
+        vd = vlib.validate_traces(o.pid, FAMILY, TRACE, coded, traces)
+        o.schedules += 2
+        o.traces += len(traces)
+        o.trace_events += sum(len(t) for t in traces)
+        o.trace_states += vs.states + vd.states
+        if len(vs.rejected) not in (0, len(traces)):
+            raise vlib.Infra("probe %s: the two executions of one schedule got different verdicts" % dev)
+        if vs.rejected and not vd.rejected:
+            _dev[dev] = True
+            confirmed.append(FINDINGS[dev][0])
+            o.known.append((FINDINGS[dev][0], FINDINGS[dev][1]))
+        elif vs.rejected:
+            _dev[dev] = False
+            vlib.conformance(o, FAMILY, TRACE, strict, PKG, [pr], tag="probe_" + dev)
+            if not o.violations:
+                raise vlib.Infra("probe %s rejected by the contract and by the as-coded cfg, but not reproduced" % dev)
+        else:
+            _dev[dev] = False
+            o.notes.append("deviation %s (%s) not observed on this tree: the bulk is validated against the contract" % (dev, FINDINGS[dev][0]))
+        log("[%s] FeeRecipient probe %s: %d traces in %.1fs; %s" % (o.pid, dev, len(traces), wall, "confirmed" if _dev[dev] else "not observed"))
+    o.extra["feerecipient_deviations_confirmed"] = confirmed
 
 
 # ----------------------------------------------------------------------------------------------------------------------
